@@ -301,6 +301,17 @@ func c08Scenario(sc *metaScn, idx int) {
 		if idx%2 == 0 {
 			sc.after(sc.do(b, "leave", nil, ""))
 			sc.after(sc.do(b, "setSelf", nil, "JRWA"))
+		} else {
+			// a participant with non-zero marks unsubscribes and subscribes again while the other one keeps the
+			// topic in memory: the store re-creates the row, the cached record is un-deleted
+			sc.after(sc.do(b, "pub", nil, "second"))
+			sc.after(sc.do(a, "noteRecv", nil, "2"))
+			sc.after(sc.do(a, "noteRead", nil, "1"))
+			sc.after(sc.do(a, "delMsg", nil, "1"))
+			sc.after(sc.do(a, "unsub", nil, ""))
+			sc.after(sc.do(a, "sub", nil, ""))
+			r.Hit("p2p_resubscribed_while_loaded")
+			sc.after(sc.do(a, "noteRead", nil, "1"))
 		}
 	}
 	steps := 8 + rng.Intn(10)
@@ -332,6 +343,20 @@ type c08Req struct {
 	kind  string // topic kind
 	setup func(sc *metaScn)
 	run   func(sc *metaScn) *metaStep
+}
+
+// c08SetDesc sends one {set desc} with an arbitrary description as a recorded step.
+func (sc *metaScn) c08SetDesc(a *metaActor, desc map[string]any) *metaStep {
+	st := &metaStep{N: len(sc.steps), Kind: "setDesc", Actor: a.role, actorU: a.u.uid, Arg: normJSON(desc)}
+	st.before = sc.rowsNow()
+	f := a.c.set(sc.nameFor(a), map[string]any{"desc": desc})
+	sc.w.e.vfQuiesce()
+	if f != nil {
+		st.Code, st.Reply = f.code(), f.Raw
+	}
+	st.after = sc.rowsNow()
+	sc.steps = append(sc.steps, st)
+	return st
 }
 
 func c08Requests() []c08Req {
@@ -366,6 +391,22 @@ func c08Requests() []c08Req {
 			st.after = sc.rowsNow()
 			sc.steps = append(sc.steps, st)
 			return st
+		}},
+		{"set-nested-public-private", "grp", func(sc *metaScn) {
+			grp(sc)
+			sc.c08SetDesc(sc.actor("owner"), map[string]any{
+				"public":  map[string]any{"fn": "nested", "photo": map[string]any{"type": "png", "ref": "/v0/file/s/old.png", "dim": map[string]any{"w": 1, "h": 2}}},
+				"private": map[string]any{"note": "n", "arch": map[string]any{"pinned": false, "label": "old"}}})
+		}, func(sc *metaScn) *metaStep {
+			return sc.c08SetDesc(sc.actor("owner"), map[string]any{
+				"public":  map[string]any{"photo": map[string]any{"ref": "/v0/file/s/new.png", "dim": map[string]any{"w": 3}}},
+				"private": map[string]any{"arch": map[string]any{"pinned": true, "label": "new"}}})
+		}},
+		{"set-nested-private-member", "grp", func(sc *metaScn) {
+			grp(sc)
+			sc.c08SetDesc(sc.actor("member"), map[string]any{"private": map[string]any{"note": "n", "arch": map[string]any{"label": "old"}}})
+		}, func(sc *metaScn) *metaStep {
+			return sc.c08SetDesc(sc.actor("member"), map[string]any{"private": map[string]any{"arch": map[string]any{"label": "new"}}})
 		}},
 		{"set-defacs", "grp", grp, func(sc *metaScn) *metaStep { return sc.do(sc.actor("owner"), "setDefacs", nil, "JRWP") }},
 		{"set-tags", "grp", grp, func(sc *metaScn) *metaStep { return sc.do(sc.actor("owner"), "setTags", nil, "alpha,beta") }},
